@@ -288,6 +288,10 @@ func (s *Service) updateConfig(ctx context.Context, instance *Instance, plugin s
 	if plugin == "" {
 		return nil, cerrors.Errorf("could not update processor instance (ID: %s): plugin name is empty", instance.ID)
 	}
+	if cfg.Workers < 0 {
+		// same rule as in Create, such a processor could not be created again
+		return nil, cerrors.Errorf("could not update processor instance (ID: %s): processor workers can't be negative", instance.ID)
+	}
 
 	if instance.Plugin != plugin {
 		s.logger.Warn(ctx).Msgf("processor plugin changing from %v to %v, "+
